@@ -83,6 +83,13 @@ ITEM = [
     ("unused type parameter", "unused-type-param", "fun g1<T>(x: Int): Int { x }", "p(g1(61))"),
     ("unused first of two type parameters", "unused-type-param", "fun g1<T, U>(x: U): U { x }", "p(g1(62))"),
     ("unused second of two type parameters", "unused-type-param", "fun g1<U, T>(x: U): U { x }", "p(g1(63))"),
+    # the removal range must not assume where `<`, `,` and `>` sit
+    ("unused type parameter, spaces inside the brackets", "unused-type-param", "fun g1< T >(x: Int): Int { x }", "p(g1(64))"),
+    ("unused type parameter, space before the bracket", "unused-type-param", "fun g1 <T>(x: Int): Int { x }", "p(g1(65))"),
+    ("unused type parameter on its own line", "unused-type-param", "fun g1<\n  T,\n>(x: Int): Int { x }", "p(g1(66))"),
+    ("unused last of three type parameters", "unused-type-param", "fun g1<U, V, T>(x: U, y: V): V { y }", "p(g1(67, 68))"),
+    ("unused middle of three type parameters, spaced", "unused-type-param", "fun g1<U , T , V>(x: U, y: V): V { y }", "p(g1(69, 70))"),
+    ("unused type parameter of a method", "unused-type-param", "method g2< T >(this: Int): Int { this }", "p(71.g2())"),
     ("unused function parameter", "unused-variable", "fun g2(x: Int, y: Int): Int { x }", "p(g2(64, 65))"),
     ("unnecessary return in function", "unnecessary-return", "fun g3(): Int {\n  return 66\n}", "p(g3())"),
     ("unnecessary let in function", "unnecessary-let", "fun g4(): Int {\n  let r = add(1, 2)\n  r\n}", "p(g4())"),
